@@ -220,10 +220,56 @@ def lemma_small_k(n: int, k: int):
         lemma_pow2_53()
 
 
+@lemma
+def lemma_binom_absorb(n: int, k: int):
+    """absorption  C(n,k)*k == n*C(n-1,k-1)"""
+    requires(n >= 1, k >= 1)
+    ensures(binom(n, k) * k == n * binom(n - 1, k - 1))
+    decreases(n)
+    unfold(binom(n, k))
+    if k > n:
+        unfold(binom(n - 1, k - 1))
+    else:
+        if n >= 2:
+            lemma_binom_absorb(n - 1, k)
+            unfold(binom(n - 1, k - 1))
+            if k >= 2:
+                lemma_binom_absorb(n - 1, k - 1)
+            else:
+                unfold(binom(n - 2, 0), binom(n - 2, -1))
+        else:
+            unfold(binom(0, 0), binom(0, 1), binom(0, k), binom(0, k - 1))
+
+
+@lemma
+def lemma_binom_mult2(n: int, k: int):
+    """C(n,k)*(n-k) == C(n-1,k)*n"""
+    requires(n >= 1, k >= 0)
+    ensures(binom(n, k) * (n - k) == binom(n - 1, k) * n)
+    lemma_binom_mult(n, k + 1)
+    lemma_binom_absorb(n, k + 1)
+
+
+@lemma
+def lemma_safe_from_53(n: int, k: int):
+    """the property's bound C(n,k) < 2^53 implies that every intermediate value of _comb fits int64"""
+    requires(0 <= k, k <= n, binom(n, k) < 2 ** 53)
+    ensures(binom(n, k) * min(k, n - k) < 2 ** 63)
+    lemma_binom_sym(n, k)
+    lemma_binom_nonneg(n, k)
+    if k > n - k:
+        lemma_small_k(n, n - k)
+        assert_(binom(n, k) * (n - k) <= binom(n, k) * 52)
+    else:
+        lemma_small_k(n, k)
+        assert_(binom(n, k) * k <= binom(n, k) * 52)
+
+
 @contract("mchap.jitutils._comb", machine_ints=True, props=["C11"])
 def _comb(n: int, k: int) -> int:
-    # the property: exact whenever the coefficient itself is < 2^53
-    requires(binom(n, k) < 2 ** 53)
+    # SAFE(n,k): weaker than the property's "C(n,k) < 2^53" (lemma_safe_from_53) -- the search
+    # in index_as_genotype_alleles probes one coefficient beyond 2^53
+    requires(implies(0 <= k and k <= n, binom(n, k) * min(k, n - k) < 2 ** 63))
     requires(n < 2 ** 62)  # side condition: `k + 1` / `n - 1` must not wrap for absurd arguments
     raises(n < 0 or k < 0)
     ensures(result == binom(old(n), old(k)))
@@ -231,12 +277,9 @@ def _comb(n: int, k: int) -> int:
         unfold(binom(n, 0))
         if 0 <= k and k <= n:
             lemma_binom_sym(n, k)
-            if k > n - k:
-                lemma_small_k(n, n - k)
-            else:
-                lemma_small_k(n, k)
     with loop(0):
-        invariant(1 <= d, d <= k + 1, k <= 52, 2 * k <= old(n))
+        invariant(1 <= d, d <= k + 1, 2 * k <= old(n))
+        invariant(binom(old(n), k) * k < 2 ** 63)
         invariant(n == old(n) - (d - 1))
         invariant(r == binom(old(n), d - 1), r >= 1)
         with head():
@@ -252,7 +295,8 @@ def _comb(n: int, k: int) -> int:
         assert_(binom(old(n), d) * gcd_b == gcd_a * n)
         lemma_div_exact(gcd_a * n, gcd_b, binom(old(n), d))
         assert_(gcd_b <= d)
-        assert_(binom(old(n), d) * gcd_b <= binom(old(n), d) * 52)
+        assert_(binom(old(n), d) * gcd_b <= binom(old(n), d) * k)
+        assert_(binom(old(n), d) * k <= binom(old(n), k) * k)
     with exit_():
         unfold(binom(old(n), old(k)))
         unfold(binom(old(n), 0))
@@ -279,12 +323,14 @@ def init_comb_cache() -> A[i8, 2]:
         invariant(forall(0, k, lambda b: _COMB_CACHE[n, b] == binom(n, b)))
         with head():
             lemma_table_bound(n, k)
+            if k <= n:
+                lemma_safe_from_53(n, k)
 
 
 @contract("mchap.jitutils.comb", machine_ints=True, props=["C11"])
 def comb(n: int, k: int) -> int:
     requires(n >= 0, k >= 0)  # the table path indexes with n, k: negative values would wrap
-    requires(binom(n, k) < 2 ** 53, n < 2 ** 62)
+    requires(implies(k <= n, binom(n, k) * min(k, n - k) < 2 ** 63), n < 2 ** 62)
     ensures(result == binom(n, k))
 
 
@@ -298,7 +344,8 @@ def cwr(n: int, k: int) -> int:
 
 @contract("mchap.jitutils._comb_with_replacement", machine_ints=True, props=["C11"])
 def _comb_with_replacement(n: int, k: int) -> int:
-    requires(k >= 0, cwr(n, k) < 2 ** 53, n < 2 ** 61, k < 2 ** 61)
+    requires(k >= 0, n < 2 ** 61, k < 2 ** 61)
+    requires(implies(n >= 1, binom(n + k - 1, k) * min(k, n - 1) < 2 ** 63))
     raises(n < 0)
     ensures(result == cwr(old(n), k))
     with entry():
@@ -316,6 +363,16 @@ def lemma_cwr_table_bound(n: int, k: int):
         compute(binom(109, 6), binom(109, 7), binom(109, 8), binom(109, 9), binom(109, 10), binom(109, 11))
 
 
+@lemma
+def lemma_cwr_safe(n: int, k: int):
+    """cwr(n,k) < 2^53 implies the SAFE precondition of the coefficient functions"""
+    requires(n >= 0, k >= 0, cwr(n, k) < 2 ** 53)
+    ensures(implies(n >= 1, binom(n + k - 1, k) * min(k, n - 1) < 2 ** 63))
+    unfold(cwr(n, k))
+    if n >= 1:
+        lemma_safe_from_53(n + k - 1, k)
+
+
 @contract("mchap.jitutils.__init___COMB_WITH_REPLACEMENT_CACHE", props=["C11"])
 def init_cwr_cache() -> A[i8, 2]:
     ensures(result.shape == (100, 12))
@@ -327,10 +384,11 @@ def init_cwr_cache() -> A[i8, 2]:
         invariant(forall(0, k, lambda b: _COMB_WITH_REPLACEMENT_CACHE[n, b] == cwr(n, b)))
         with head():
             lemma_cwr_table_bound(n, k)
+            lemma_cwr_safe(n, k)
 
 
 @contract("mchap.jitutils.comb_with_replacement", machine_ints=True, props=["C11"])
 def comb_with_replacement(n: int, k: int) -> int:
-    requires(n >= 0, k >= 0)
-    requires(cwr(n, k) < 2 ** 53, n < 2 ** 61, k < 2 ** 61)
+    requires(n >= 0, k >= 0, n < 2 ** 61, k < 2 ** 61)
+    requires(implies(n >= 1, binom(n + k - 1, k) * min(k, n - 1) < 2 ** 63))
     ensures(result == cwr(n, k))
